@@ -354,6 +354,23 @@ impl Selection {
     }
 }
 
+#[cfg(feature = "verif")]
+impl Selection {
+    /// place the cursor without drawing (cursor = item_cursor + line_cursor)
+    pub fn verif_set_cursor(&mut self, item_cursor: usize, line_cursor: usize) {
+        self.item_cursor = item_cursor;
+        self.line_cursor = line_cursor;
+    }
+
+    /// the selected map in its own (key) order: ((run, item index), item text)
+    pub fn verif_selected(&self) -> Vec<((u32, u32), String)> {
+        self.selected
+            .iter()
+            .map(|(k, v)| (*k, v.text().into_owned()))
+            .collect()
+    }
+}
+
 impl EventHandler for Selection {
     fn handle(&mut self, event: &Event) -> UpdateScreen {
         use crate::event::Event::*;
@@ -597,5 +614,13 @@ impl Selection {
     /// keys (run, item_idx) of the selected items, ascending
     pub fn verif_selected_keys(&self) -> Vec<(u32, u32)> {
         self.selected.keys().cloned().collect()
+    }
+}
+
+#[cfg(feature = "verif")]
+impl Selection {
+    /// (item_cursor, line_cursor, height stored by the last draw; 0 = never drawn)
+    pub fn verif_cursor(&self) -> (usize, usize, usize) {
+        (self.item_cursor, self.line_cursor, self.height.load(Ordering::Relaxed))
     }
 }
